@@ -114,7 +114,7 @@ prop("C18",
      rule="every (length 0..N, alignment 0..7, seed in {0,1,0xf721b64d,0xffffffff}, pattern in {00.., FF.., counting, each single byte set to 0x01/0x80}) case runs all six hashes "
           "against references written from the published definitions; over-/under-reads fault at a redzone or PROT_NONE page; non-trivial = keys of length > 0",
      bounds={"quick": "lengths 0..40 (55 k cases) + all 1-byte keys", "thorough": "lengths 0..100 (333 k cases) + all 1- and 2-byte keys"},
-     assumptions=["little-endian host (jenkins == jenkinsLE is asserted)", "spifhash_jenkins32 is only driven with 4-byte-aligned keys and a length in 32-bit words"],
+     assumptions=["little-endian host (jenkins == jenkinsLE is asserted)", "spifhash_jenkins32 is driven with a length in 32-bit words (keys at every byte alignment; the host allows unaligned 32-bit loads)"],
      runs=[dict(name="h_hash", sources=["harness/h_hash.c"], profile="asan", args={"quick": ["--maxlen=40"], "thorough": ["--maxlen=100"]}),
            # unoptimised and -O2 builds: a load the optimiser drops at -O1 is still a read past the key in the other builds (PROT_NONE pages catch it)
            dict(name="h_hash_O0", sources=["harness/h_hash.c"], profile="plain0", args={"quick": ["--maxlen=40"], "thorough": ["--maxlen=100"]}),
